@@ -277,10 +277,25 @@ func c09NestedA(toks []efp.Token) bool {
 		case fn && t.TSubType == efp.TokenSubTypeStart && t.TValue == "ARRAY":
 			*cur = append(*cur, 'a')
 		case fn && t.TSubType == efp.TokenSubTypeStart && t.TValue == "ARRAYROW":
-			if top(*cur) != 'a' {
-				return false
+			// scanA: the innermost array frame not separated from the top by a function frame
+			scan := byte(0)
+			all := append(append([]byte{}, outer...), inner...)
+			for i := len(all) - 1; i >= 0 && scan == 0; i-- {
+				switch all[i] {
+				case 'F':
+					scan = 'F'
+				case 'a', 'r':
+					scan = all[i]
+				}
 			}
-			(*cur)[len(*cur)-1] = 'r'
+			if scan == 'a' { // an array constant without an open row
+				if top(*cur) != 'a' {
+					return false // the row would open underneath a parenthesis: not representable
+				}
+				(*cur)[len(*cur)-1] = 'r'
+			} else {
+				inner = append(inner, 'F') // anywhere else: an ordinary function start
+			}
 		case fn && t.TSubType == efp.TokenSubTypeStart:
 			inner = append(inner, 'F')
 		case fn && t.TSubType == efp.TokenSubTypeStop:
@@ -295,10 +310,7 @@ func c09NestedA(toks []efp.Token) bool {
 					return false
 				}
 			}
-		case t.TType == efp.TokenTypeArgument:
-			if len(inner) > 0 && top(inner) == 'P' {
-				return false
-			}
+		case t.TType == efp.TokenTypeArgument: // anywhere
 		case sub && t.TSubType == efp.TokenSubTypeStart:
 			*cur = append(*cur, 'P')
 		case sub && t.TSubType == efp.TokenSubTypeStop:
